@@ -480,11 +480,16 @@ impl<'a, T: ColumnProvider> ExpressionExecutionEngine<'a, T> {
                     Function::MakeTimestamp if arguments.len() == 7 => {
                         match (&executed_arguments[0], &executed_arguments[1], &executed_arguments[2], &executed_arguments[3], &executed_arguments[4], &executed_arguments[5], &executed_arguments[6]) {
                             (Value::Int(year), Value::Int(month), Value::Int(day), Value::Int(hour), Value::Int(minute), Value::Int(second), Value::Int(microsecond)) => {
-                                Ok(
-                                    create_timestamp(*year as i32, *month as u32, *day as u32, *hour as u32, *minute as u32, *second as u32, *microsecond as u32)
-                                        .map(|timestamp| Value::Timestamp(timestamp))
-                                        .unwrap_or(Value::Null)
-                                )
+                                // A part that does not fit its range is out of range (it must not wrap around into a valid one)
+                                let part = |value: &i64| u32::try_from(*value).ok();
+                                let timestamp = match (i32::try_from(*year).ok(), part(month), part(day), part(hour), part(minute), part(second), part(microsecond)) {
+                                    (Some(year), Some(month), Some(day), Some(hour), Some(minute), Some(second), Some(microsecond)) => {
+                                        create_timestamp(year, month, day, hour, minute, second, microsecond)
+                                    }
+                                    _ => None
+                                };
+
+                                Ok(timestamp.map(|timestamp| Value::Timestamp(timestamp)).unwrap_or(Value::Null))
                             }
                             _ => Err(EvaluationError::UndefinedFunction(function.clone(), executed_arguments_types))
                         }
